@@ -411,6 +411,23 @@ func (b *Block) InjectBeforeMeta(raws ...[]byte) {
 	b.Hash = blockHash(b.Height, full, b.Proposer.Address)
 }
 
+// SigZeroVotingStake is the signature of a recorded finding (C10): governance EndBlock returns a fatal error when a
+// proposal closes while every current validator entity has a zero active escrow balance.
+const SigZeroVotingStake = "halt-zero-voting-stake"
+
+// AllowZeroVotingStake: generators may deliberately build the precondition of SigZeroVotingStake (validator entities
+// reclaiming their whole self-delegation). Set by the check that owns the finding while the finding is NOT excluded.
+var AllowZeroVotingStake bool
+
+// KnownHalt maps the text of a failed block to the signature of a recorded finding ("" = none). A reworded message makes
+// the failure count under the check's general signature again; that errs on the side of reporting.
+func KnownHalt(msg string) string {
+	if strings.Contains(strings.ToLower(msg), "total voting stake is zero") {
+		return SigZeroVotingStake
+	}
+	return ""
+}
+
 // ValidatorsAt returns the engine's validator set for a height (nil when unknown).
 func (e *Engine) ValidatorsAt(h int64) ValSet { return e.valsAt[h] }
 
